@@ -1,4 +1,9 @@
-"""Run the repository's pinned test-suite (guard OFF) and compare with BASELINE.json's stable_pass list."""
+"""Run the repository's pinned test-suite (guard OFF) and compare with BASELINE.json's stable_pass list.
+
+  /venv/bin/python vf/baseline.py             in /repo itself
+  /venv/bin/python vf/baseline.py --scratch   in a scratch worktree of /repo HEAD under /var/tmp (removed afterwards), so that
+                                              seeded changes may be applied to /repo meanwhile
+"""
 import os, sys, json, subprocess, tempfile
 import xml.etree.ElementTree as ET
 
@@ -6,10 +11,29 @@ def main():
     b = json.load(open('/root/.vp/BASELINE.json'))
     env = dict(os.environ)
     env.pop('USEPA_WNTR_VERIF', None)
+    args = [a for a in sys.argv[1:] if a != '--scratch']
+    wt = None
+    if '--scratch' in sys.argv[1:]:
+        import glob, shutil
+        wt = tempfile.mkdtemp(dir='/var/tmp', prefix='wntr-baseline-')
+        os.rmdir(wt)
+        subprocess.run('git -C /repo worktree add -q --detach %s HEAD' % wt, shell=True, check=True)
+        for so in glob.glob('/repo/wntr/sim/*/_*.so'):
+            shutil.copy(so, so.replace('/repo', wt, 1))
+    try:
+        return _run(b, env, args, wt)
+    finally:
+        if wt:
+            subprocess.run('git -C /repo worktree remove --force %s; git -C /repo worktree prune' % wt, shell=True)
+
+
+def _run(b, env, args, wt):
     with tempfile.TemporaryDirectory(dir='/var/tmp') as d:
         x = os.path.join(d, 'junit.xml')
         cmd = b['cmd'].replace('<file>', x)
-        extra = ' '.join(sys.argv[1:])
+        if wt:
+            cmd = cmd.replace('cd /repo', 'cd ' + wt)
+        extra = ' '.join(args)
         subprocess.run(cmd + (' ' + extra if extra else ''), shell=True, env=env, stdout=subprocess.DEVNULL, stderr=subprocess.DEVNULL)
         passed = set()
         for tc in ET.parse(x).getroot().iter('testcase'):
